@@ -95,7 +95,11 @@ bool Thread::Start() {
   }
 
   if (FastStart()) {
-    m_condition.Wait(&m_mutex);
+    // pthread_cond_wait may wake up spuriously, so wait until the new thread
+    // has actually set m_running.
+    while (!m_running) {
+      m_condition.Wait(&m_mutex);
+    }
     return true;
   }
   return false;
